@@ -178,7 +178,12 @@ func (s *ScanServer) Handle(c *Cluster, sc *Conn, reg *Region, ctx *ScanCtx) *Re
 		if !reg.Contains(r.Key) {
 			continue
 		}
-		if !scan.GetReversed() {
+		if len(start) != 0 && bytes.Equal(start, stop) {
+			// start row == stop row is a point get to HBase (inclusive stop row)
+			if !bytes.Equal(r.Key, start) {
+				continue
+			}
+		} else if !scan.GetReversed() {
 			if bytes.Compare(r.Key, start) < 0 || (len(stop) != 0 && bytes.Compare(r.Key, stop) >= 0) {
 				continue
 			}
